@@ -408,7 +408,42 @@ fn run_history(rep: &mut Report, prop: &str, seed: u64, len: usize) -> HistoryOu
 
     // peers that should announce their chain's tip next (after the chains were levelled)
     let mut announce_queue: Vec<u64> = Vec::new();
-    let mut forced_peer: Option<u64> = None;
+    let mut forced_peer: Option<u64>;
+    // a scripted prologue in one history of four: two peers on two branches of equal weight that
+    // both find the next block (the race of competing tips); (choice, a, b), newest last
+    #[derive(Clone, Copy)]
+    enum Forced {
+        Fork(u64),
+        Connect(u64, usize),
+        Announce(u64),
+        Level(u64),
+        Grow(usize, u64),
+    }
+    let mut script: Vec<Forced> = if seed % 4 == 0 {
+        // peer 1 is proved on branch a at height L; peer 2 proves branch b at L+1 (a peer can only
+        // be proved when its tip is ahead of the stored one); then a finds its block L+1 - as heavy
+        // as the stored tip - and peer 1 announces it (the child fast path); and once more
+        let mut v = vec![
+            Forced::Fork(1),
+            Forced::Level(0),
+            Forced::Connect(1, 0),
+            Forced::Announce(1),
+            Forced::Connect(2, 1),
+            Forced::Grow(1, 1),
+            Forced::Announce(2),
+            Forced::Grow(0, 1),
+            Forced::Announce(1),
+            Forced::Grow(0, 1),
+            Forced::Announce(1),
+            Forced::Grow(1, 1),
+            Forced::Announce(2),
+        ];
+        v.reverse();
+        v
+    } else {
+        Vec::new()
+    };
+    let mut forced: Option<Forced>;
     for step in 0..len {
         rep.evaluations += 1;
         let mut choice = rng.below(20);
@@ -428,7 +463,24 @@ fn run_history(rep: &mut Report, prop: &str, seed: u64, len: usize) -> HistoryOu
             choice = 0;
         }
         forced_peer = None;
-        if outstanding.is_empty() {
+        forced = None;
+        if !script.is_empty() {
+            if !outstanding.is_empty() {
+                choice = 10; // answer the outstanding proof requests first
+            } else {
+                forced = script.pop();
+                match forced {
+                    Some(Forced::Fork(_)) => choice = 5,
+                    Some(Forced::Connect(..)) => choice = 0,
+                    Some(Forced::Announce(p)) => {
+                        forced_peer = Some(p);
+                        choice = 6;
+                    }
+                    Some(Forced::Level(_)) | Some(Forced::Grow(..)) => choice = 3,
+                    None => {}
+                }
+            }
+        } else if outstanding.is_empty() {
             while let Some(p) = announce_queue.pop() {
                 if connected.contains(&p) {
                     forced_peer = Some(p);
@@ -438,21 +490,25 @@ fn run_history(rep: &mut Report, prop: &str, seed: u64, len: usize) -> HistoryOu
             }
         }
         // more forks, and peers on them, early in a history
-        if world.chains.len() < 2 && step > 3 && rng.chance(1, 6) {
+        if forced.is_none() && script.is_empty() && world.chains.len() < 2 && step > 3 && rng.chance(1, 6) {
             choice = 5;
         }
         match choice {
             // ------------------------------------------------------------ connect
             0 | 1 => {
-                let p = rng.range(1, 3);
-                if connected.contains(&p) {
-                    continue;
-                }
-                let ci = if world.chains.len() > 1 && rng.chance(1, 2) {
+                let mut p = rng.range(1, 3);
+                let mut ci = if world.chains.len() > 1 && rng.chance(1, 2) {
                     rng.below(world.chains.len() as u64) as usize
                 } else {
                     0
                 };
+                if let Some(Forced::Connect(fp, fc)) = forced {
+                    p = fp;
+                    ci = fc.min(world.chains.len() - 1);
+                }
+                if connected.contains(&p) {
+                    continue;
+                }
                 world.peer_chain.insert(p, ci);
                 connected.insert(p);
                 let peer = PeerIndex::new(p as usize);
@@ -483,11 +539,11 @@ fn run_history(rep: &mut Report, prop: &str, seed: u64, len: usize) -> HistoryOu
                 rep.count_op("disconnect");
             }
             // ------------------------------------------------------------ chain growth / fork
-            3 | 4 if world.chains.len() > 1 && rng.chance(1, 3) => {
+            3 | 4 if world.chains.len() > 1 && (matches!(forced, Some(Forced::Level(_))) || rng.chance(1, 3)) => {
                 // competing tips of equal total difficulty: level all chains, then (mostly) let
                 // every chain find one more block at the same time
                 let top = world.chains.iter().map(|c| c.tip_number()).max().unwrap_or(0);
-                let extra = if rng.chance(2, 3) { 1 } else { 0 };
+                let extra = if let Some(Forced::Level(e)) = forced { e } else if rng.chance(2, 3) { 1 } else { 0 };
                 for c in world.chains.iter_mut() {
                     let k = top + extra - c.tip_number();
                     if k > 0 {
@@ -504,8 +560,12 @@ fn run_history(rep: &mut Report, prop: &str, seed: u64, len: usize) -> HistoryOu
                 continue;
             }
             3 | 4 => {
-                let ci = rng.below(world.chains.len() as u64) as usize;
-                let k = *rng.pick(&[1u64, 1, 1, 2, 7, 30]);
+                let mut ci = rng.below(world.chains.len() as u64) as usize;
+                let mut k = *rng.pick(&[1u64, 1, 1, 2, 7, 30]);
+                if let Some(Forced::Grow(fc, fk)) = forced {
+                    ci = fc.min(world.chains.len() - 1);
+                    k = fk;
+                }
                 let plan = legal_plan(&mut rng, &world.chains[ci]);
                 let _ = plan;
                 // keep the epoch plan of the chain: append_simple continues the current epoch rule
@@ -519,7 +579,10 @@ fn run_history(rep: &mut Report, prop: &str, seed: u64, len: usize) -> HistoryOu
                     continue;
                 }
                 let base = &world.chains[0];
-                let depth = *rng.pick(&[0u64, 1, 2, last_n.saturating_sub(1), last_n, last_n + 1]);
+                let mut depth = *rng.pick(&[0u64, 1, 2, last_n.saturating_sub(1), last_n, last_n + 1]);
+                if let Some(Forced::Fork(d)) = forced {
+                    depth = d;
+                }
                 let at = base.tip_number().saturating_sub(depth).max(1);
                 let mut f = base.fork(at, 77 + world.chains.len() as u64);
                 f.append_simple(depth + rng.range(1, 4));
@@ -670,6 +733,8 @@ fn run_history(rep: &mut Report, prop: &str, seed: u64, len: usize) -> HistoryOu
                 }
                 let edit = if req.is_none() {
                     Edit::Unsolicited
+                } else if !script.is_empty() {
+                    Edit::Honest
                 } else {
                     rng.pick(&[
                         Edit::Honest,
